@@ -303,6 +303,10 @@ func (c *Certificate) Verify(opts VerifyOptions) (current, expired, never []Cert
 		}
 	}
 
+	if opts.CurrentTime.IsZero() {
+		opts.CurrentTime = time.Now()
+	}
+
 	err = c.isValid(CertificateTypeLeaf, nil)
 	if err != nil {
 		return
